@@ -763,7 +763,7 @@ def draw_options(draw, n, npt, prof, has_two_sided, force_opt=None):
             tags.append("slow")
         elif o == 4:
             up["tr_radius.gamma_dec"] = draw(st.sampled_from([0.25, 0.5, 0.98]))
-            up["tr_radius.alpha1"] = draw(st.sampled_from([0.1, 0.5, 0.9]))
+            up["tr_radius.alpha1"] = draw(st.sampled_from([0.1, 0.5, 0.9, 0.01, 1e-3, 1e-3]))
             up["tr_radius.alpha2"] = draw(st.sampled_from([0.5, 0.95]))
             if draw(st.booleans()):
                 up["tr_radius.gamma_inc"] = draw(st.sampled_from([1.0, 2.0, 5.0]))
@@ -867,7 +867,10 @@ def scenarios(draw, prof=None):
     case["npt"] = npt
     rb = case["rhobeg"]
     rb_eff = rb if rb is not None else (0.1 if case["scaling"] else 0.1 * max(max(abs(v) for v in case["x0"]), 1.0))
-    case["rhoend"] = rb_eff * 10.0 ** (-draw(st.sampled_from(prof["rhoend_exps"])))
+    # ratios rhobeg/rhoend that are not powers of ten too (the radius-reduction rule switches regime at ratios 16 and 250)
+    case["rhoend"] = rb_eff * 10.0 ** (-draw(st.sampled_from(prof["rhoend_exps"]))) * draw(st.sampled_from([1.0, 1.0, 1.0, 3.0, 0.3]))
+    if not (case["rhoend"] < rb_eff):
+        case["rhoend"] = rb_eff * 0.1
     mf = draw(st.sampled_from(prof["maxfuns"]))
     if isinstance(mf, str):
         mf = npt + {"npt-1": -1, "npt": 0, "npt+1": 1}[mf]
